@@ -49,6 +49,10 @@ def run(ctx):
     wr, wsum = wakefam.run(ctx, "mpx", check_vacuity=True)
     states += wr.distinct
     trans += wr.generated
+    wr2, wsum2 = wakefam.run(ctx, "sendloop")        # the connection's send loop and its write queue
+    states += wr2.distinct
+    trans += wr2.generated
+    wsum["schedules"] += wsum2["schedules"]
     ctx.coverage = {
         "wake_schedules_replayed": wsum["schedules"],
         "states": states, "transitions": trans, "traces_validated_against_impl": runs, "samples": samples,
